@@ -219,7 +219,7 @@ def run(ctx):
     nmax = 3 if ctx.tier == 'thorough' else 2
     try:
         _symbolic(ctx)
-    except Inconclusive as e_:
+    except Exception as e_:          # whatever stops the symbolic part, the native differential below still runs
         ctx.inconclusive('encoder: %s' % e_)
     native_differential(ctx)
     chk.assumptions += ['Fq12 multiplication is commutative/associative and squaring doubles exponents (C09); mul_by_014 inside ell is the product with the sparse line value (C09)',
